@@ -430,6 +430,12 @@ void gen_c20(Plan &p, Rng &r, bool thorough) {
       a.ans = r.coin() ? ANS_FAIL : ANS_SHORT;
       a.arg = (long)r.below(30);
       a.err = r.coin() ? ENOSPC : EIO;
+      if (r.chance(1, 4)) {
+        // one block is lost, the stream works again afterwards: only the stream's error indicator remembers it
+        a.ans = ANS_FAIL;
+        a.err = EAGAIN;
+        a.nth = (int)r.below(3);
+      }
       o.env.push_back(a);
     }
     t.ops.push_back(o);
